@@ -57,7 +57,7 @@ CHECKS.update({
              "input refused); bind gating on client and server; BINDING restricts sends. The one deviation (F-C08c, pinned by the repo's tests) "
              "is carved out explicitly and proved as known_deviation. Model tied to the code by replaying generated joint histories."
              " Added (Props/C08More, C10More): history refinement with the deviation hypothesis only along the run, and with no hypothesis at all up to BEFORE_OPEN≈OPENED (exact for clients and for any session that has left BEFORE_OPEN); bind gating and the frozen closed session at receive level; acceptance iffs for client requests. SECOND TIE (translator): the bookkeeping of _session.py (data_to_send, unbind, _send / _validate_outgoing_message of base, client and server, both _process_incoming_message, receive with the attached notification, the client request and server response methods) is translated method by method from the Python AST into Lean on every run (harness/py2lean_session.py -> Generated/SessionGen.lean; encoding and unpacking abstract) and Props/TiesSession.lean proves every generated method equal to the model function and one generated call equal to one model step for every Call constructor. Not in force => NOTE line, count-like search parameters x4; the property stays decided by the theorems + the correspondence tie.",
-        technique="Lean 4 proof (refinement + invariants by induction on reachability) + correspondence on generated histories",
+        technique="Lean 4 proof (refinement + invariants by induction on reachability) + correspondence on generated histories + Python-AST-to-Lean translator with equality theorems (generated = model) as a second tie",
         ref="DESIGN.md §4 C08",
     ),
     "C09": dict(
@@ -65,7 +65,7 @@ CHECKS.update({
              "bytes; searches ⊆ outstanding on every reachable client; a message is accepted iff it is a response whose id is outstanding; "
              "lifetime of searches vs other operations; a rejected message closes the session."
              " Added (Props/C09More): ids are fresh; only a search call enters the search set and only its done message leaves it; for a whole delivery of several messages receive returns them iff the id rule (stated independently) accepts all of them and none is a notice, otherwise protocol error and CLOSED. SECOND TIE (translator): the bookkeeping of _session.py (data_to_send, unbind, _send / _validate_outgoing_message of base, client and server, both _process_incoming_message, receive with the attached notification, the client request and server response methods) is translated method by method from the Python AST into Lean on every run (harness/py2lean_session.py -> Generated/SessionGen.lean; encoding and unpacking abstract) and Props/TiesSession.lean proves every generated method equal to the model function and one generated call equal to one model step for every Call constructor. Not in force => NOTE line, count-like search parameters x4; the property stays decided by the theorems + the correspondence tie.",
-        technique="Lean 4 proof (invariants over reachable states) + correspondence on generated histories",
+        technique="Lean 4 proof (invariants over reachable states) + correspondence on generated histories + Python-AST-to-Lean translator with equality theorems (generated = model) as a second tie",
         ref="DESIGN.md §4 C09",
     ),
     "C10": dict(
@@ -73,14 +73,14 @@ CHECKS.update({
              "accepted only for an outstanding id; a final response retires it so any second response is rejected with no wire effect; "
              "entries/references keep it open."
              " Added (Props/C10More): response_accepted_iff (not closed ∧ binding restriction ∧ id outstanding — nothing else), effects of accepted and refused calls on the whole session, and a ghost characterisation of 'outstanding' from calls and outcomes only. SECOND TIE (translator): the bookkeeping of _session.py (data_to_send, unbind, _send / _validate_outgoing_message of base, client and server, both _process_incoming_message, receive with the attached notification, the client request and server response methods) is translated method by method from the Python AST into Lean on every run (harness/py2lean_session.py -> Generated/SessionGen.lean; encoding and unpacking abstract) and Props/TiesSession.lean proves every generated method equal to the model function and one generated call equal to one model step for every Call constructor. Not in force => NOTE line, count-like search parameters x4; the property stays decided by the theorems + the correspondence tie.",
-        technique="Lean 4 proof (case analysis of the step function) + correspondence on generated histories",
+        technique="Lean 4 proof (case analysis of the step function) + correspondence on generated histories + Python-AST-to-Lean translator with equality theorems (generated = model) as a second tie",
         ref="DESIGN.md §4 C10",
     ),
     "C12": dict(
         text="Lean theorem queue: over any history from any session, all drained bytes ++ pending bytes = initially pending ++ encodings of exactly "
              "the accepted sends in call order, for every drain amount (None, 0, partial, oversized, negative via Python slice semantics); drain "
              "changes nothing but the pending bytes. SECOND TIE (translator): the bookkeeping of _session.py (data_to_send, unbind, _send / _validate_outgoing_message of base, client and server, both _process_incoming_message, receive with the attached notification, the client request and server response methods) is translated method by method from the Python AST into Lean on every run (harness/py2lean_session.py -> Generated/SessionGen.lean; encoding and unpacking abstract) and Props/TiesSession.lean proves every generated method equal to the model function and one generated call equal to one model step for every Call constructor. Not in force => NOTE line, count-like search parameters x4; the property stays decided by the theorems + the correspondence tie.",
-        technique="Lean 4 proof (one-step FIFO lemma + induction over the history) + correspondence on generated histories",
+        technique="Lean 4 proof (one-step FIFO lemma + induction over the history) + correspondence on generated histories + Python-AST-to-Lean translator with equality theorems (generated = model) as a second tie",
         ref="DESIGN.md §4 C12",
     ),
 })
@@ -119,7 +119,7 @@ CHECKS.update({
              "plus \\hh escapes (byte class regenerated from the library's escape pattern), and toText is pure printable ASCII — no value content "
              "can change the shape of a filter."
              " Added (Props/C13More): toText_is_sentence_iff — the text form is an RFC 4515 sentence (independent grammar relation) exactly on the domain WFText ∧ RFC attributes/oids ∧ every extensible match has an attribute or a rule; raw UTF-8 is NOT required to be escaped by the harness oracle (independent recogniser of the grammar). SECOND TIE (translator): the recursive-descent parser behind LDAPFilter.from_string (_unpack_filter, _unpack_complex_filter, _unpack_simple_filter, _unpack_filter_extensible_header, _unpack_filter_substrings_value, from_string) is translated statement by statement from the Python AST into Lean on every run (harness/py2lean.py -> Generated/FilterGen.lean) and Props/TiesFilter.lean proves generated = hand model (same tree, consumed count, error offset and length; all inputs, all sufficient fuel); trusted boundary: the attribute pattern (= validAttr by Props/Ties.lean), the re.sub-based value unescape, strip / encode. Not in force => NOTE line, search at up to 4x the quick scale; the property stays decided by the theorems + the correspondence tie.",
-        technique="Lean 4 proof (mutual structural induction on filters; scanner lemmas) + correspondence",
+        technique="Lean 4 proof (mutual structural induction on filters; scanner lemmas) + correspondence + Python-AST-to-Lean translator with equality theorems (generated = model) as a second tie",
         ref="DESIGN.md §4 C13",
     ),
     "C15": dict(
@@ -128,7 +128,7 @@ CHECKS.update({
              "whatever is accepted has pattern-valid attributes/rules, lies in the text domain of C13 and therefore re-parses from its own text. "
              "Known finding F-C15d (single-arc numeric OIDs accepted; pinned by the repo's tests)."
              " Added (Props/C13More): validAttr_iff (the pattern accepts exactly RFC attribute descriptions plus F-C15d), accepted_rule_char (accepted matching rules deviate from oid exactly by F-C15r — options, pinned by the repo's tests — and F-C15d), and an integer-valued shadow of the parser proving no reported offset/length is ever negative. SECOND TIE (translator): the recursive-descent parser behind LDAPFilter.from_string (_unpack_filter, _unpack_complex_filter, _unpack_simple_filter, _unpack_filter_extensible_header, _unpack_filter_substrings_value, from_string) is translated statement by statement from the Python AST into Lean on every run (harness/py2lean.py -> Generated/FilterGen.lean) and Props/TiesFilter.lean proves generated = hand model (same tree, consumed count, error offset and length; all inputs, all sufficient fuel); trusted boundary: the attribute pattern (= validAttr by Props/Ties.lean), the re.sub-based value unescape, strip / encode. Not in force => NOTE line, search at up to 4x the quick scale; the property stays decided by the theorems + the correspondence tie.",
-        technique="Lean 4 proof (span/progress invariants by induction on depth and fuel) + correspondence on mutated and random text",
+        technique="Lean 4 proof (span/progress invariants by induction on depth and fuel) + correspondence on mutated and random text + Python-AST-to-Lean translator with equality theorems (generated = model) as a second tie",
         ref="DESIGN.md §4 C15",
     ),
 })
@@ -140,7 +140,7 @@ CHECKS.update({
              "derivation the parser returns exactly the denoted tree (any Unicode white space around the sentence is stripped first); the denoted "
              "tree is a well-formed message component and the SearchRequest carrying it encodes to bytes that the strict RFC 4511 decoder reads "
              "back (by C03). SECOND TIE (translator): the recursive-descent parser behind LDAPFilter.from_string (_unpack_filter, _unpack_complex_filter, _unpack_simple_filter, _unpack_filter_extensible_header, _unpack_filter_substrings_value, from_string) is translated statement by statement from the Python AST into Lean on every run (harness/py2lean.py -> Generated/FilterGen.lean) and Props/TiesFilter.lean proves generated = hand model (same tree, consumed count, error offset and length; all inputs, all sufficient fuel); trusted boundary: the attribute pattern (= validAttr by Props/Ties.lean), the re.sub-based value unescape, strip / encode. Not in force => NOTE line, search at up to 4x the quick scale; the property stays decided by the theorems + the correspondence tie.",
-        technique="Lean 4 proof (induction on grammar derivations) + correspondence + generated-sentence search",
+        technique="Lean 4 proof (induction on grammar derivations) + correspondence + generated-sentence search + Python-AST-to-Lean translator with equality theorems (generated = model) as a second tie",
         ref="DESIGN.md §4 C14",
     ),
 })
@@ -181,7 +181,7 @@ CHECKS.update({
              "deterministic scanner which is PROVED equal to the compiled pattern (regenerated from the source with its named groups on every run; "
              "backtracking semantics with captures): Props/TiesSchema.lean, parseX_is_pattern_then_post. Correspondence on generated, mutated, "
              "long escape-heavy and random strings ties the rest. SECOND TIE (translator): the hand-written Python around the description regexes (_encode_*, _parse_oids, _parse_qdstring, _parse_extensions, __str__ / from_string of the three classes) is translated from the Python AST into Lean on every run (harness/py2lean_schema.py -> Generated/SchemaGen.lean) and Props/TiesSchemaCode.lean proves generated = model for all strings (differences stated and proved on both sides: the 4300-digit int/str limit; _parse_oids on non-blank white space, unreachable from from_string). Not in force => NOTE line, count-like search parameters x4.",
-        technique="Lean 4 proof (text form is a grammar sentence + C17; scanner = translated regex with captures) + translator + correspondence",
+        technique="Lean 4 proof (text form is a grammar sentence + C17; scanner = translated regex with captures) + translator + correspondence + Python-AST-to-Lean translator with equality theorems (generated = model) as a second tie",
         ref="DESIGN.md §4 C16",
     ),
     "C17": dict(
@@ -191,7 +191,7 @@ CHECKS.update({
              "(single error constructor) and is what the correspondence on mutated / random strings checks on the implementation. The scanner that "
              "stands for PATTERN.match is proved equal, on acceptance and on every named group, to the backtracking semantics of the pattern "
              "regenerated from schema.py (Props/TiesSchema.lean), and the match step is cross-checked three ways (CPython / translated pattern / scanner). SECOND TIE (translator): the hand-written Python around the description regexes (_encode_*, _parse_oids, _parse_qdstring, _parse_extensions, __str__ / from_string of the three classes) is translated from the Python AST into Lean on every run (harness/py2lean_schema.py -> Generated/SchemaGen.lean) and Props/TiesSchemaCode.lean proves generated = model for all strings (differences stated and proved on both sides: the 4300-digit int/str limit; _parse_oids on non-blank white space, unreachable from from_string). Not in force => NOTE line, count-like search parameters x4.",
-        technique="Lean 4 proof (scanner vs grammar relation; scanner = translated regex with captures) + translator + correspondence + generated-sentence search",
+        technique="Lean 4 proof (scanner vs grammar relation; scanner = translated regex with captures) + translator + correspondence + generated-sentence search + Python-AST-to-Lean translator with equality theorems (generated = model) as a second tie",
         ref="DESIGN.md §4 C17",
     ),
 })
@@ -205,7 +205,7 @@ CHECKS.update({
              "(BEFORE_OPEN ≈ OPENED) and on the operations in progress. Full byte-granular statement (not only message-granular). Admissibility = "
              "calls accepted, responses of the matching kind, no server-initiated termination."
              " Added (Props/C11More): witnesses of AdmissibleRun, error_only_at_termination (every step outcome is fine or one of three named termination errors), closed_agreement, and the notice-of-disconnection termination. SECOND TIE (translator): the bookkeeping of _session.py (data_to_send, unbind, _send / _validate_outgoing_message of base, client and server, both _process_incoming_message, receive with the attached notification, the client request and server response methods) is translated method by method from the Python AST into Lean on every run (harness/py2lean_session.py -> Generated/SessionGen.lean; encoding and unpacking abstract) and Props/TiesSession.lean proves every generated method equal to the model function and one generated call equal to one model step for every Call constructor. Not in force => NOTE line, count-like search parameters x4; the property stays decided by the theorems + the correspondence tie.",
-        technique="Lean 4 proof (channel invariant + bookkeeping invariant over ghost logs, induction over the history) + correspondence on joint histories",
+        technique="Lean 4 proof (channel invariant + bookkeeping invariant over ghost logs, induction over the history) + correspondence on joint histories + Python-AST-to-Lean translator with equality theorems (generated = model) as a second tie",
         ref="DESIGN.md §4 C11",
     ),
 })
